@@ -6,7 +6,13 @@
      files     slot -> abstract file | NoFile          one (cycle, node) group of the HDF5 file per slot
      snap      slot -> the state that was written       (ghost: what the snapshot must reproduce)
      loaded    handle -> state | NoState                reactors returned by Database.load
-     src       handle -> slot it was loaded from (0 = none)
+     src       handle -> <<slot it was loaded from, process that loaded it>>  (<<0, 0>> = none)
+     flags     process -> the parameter groups whose DEFINITIONS are flagged `assigned` in that process.  The flag is a
+               class-level fact (parameterDefinitions.Parameter.assigned, set by the parameter's property setter):
+               Database._writeParams offers only flagged definitions (paramDefs.toWriteToDB()).  Process 1 built the
+               reactor from its inputs (every group flagged); process 2 is a FRESH process that only loads and saves
+               (restart, post-processing): nothing is flagged until Database._readParams assigns the stored values
+               through the parameter properties.
      act       the last action (label for coverage, emission and the step properties)
 
    ACTIONS (one per public call the harness drives; linearization point = return of the call)
@@ -19,14 +25,17 @@
        Grow                   growToFullCore / adding an assembly        -> new nodes with fresh names and serial numbers
      Write(s)           Database.writeToDB(live) at time node s  (Layout(comp=r), Layout.writeToDB, _writeParams)
      WriteRefused(s)    the same call when sorted() raises: nothing may be stored
-     Load(s, h)         Database.load(cycle, node, cs, bp)       (Layout(h5group), _initComps, _readParams, _compose, sort)
-     Resave(h, s)       Database.writeToDB(loaded[h]) into another file/time node
+     Load(s, h, p)      Database.load(cycle, node, cs, bp) in process p   (Layout(h5group), _initComps, _readParams, _compose, sort);
+                        every stored parameter is assigned through its property: its definition is flagged in p
+     Resave(h, s, p)    Database.writeToDB(loaded[h]) into another file/time node by the process that loaded it: the groups
+                        not flagged in p are left out of the file and read back as defaults ("unset")
 
    PROPERTIES (the clauses of the statement)
      LoadedIsWritten     loaded[h] = Canon(snap[src[h]])   -- same tree, types, names, serial numbers, child order (canonical),
                          grids, locations, every persistent parameter, materials, temperatures, dimensions, densities, ...
      LoadTwiceEqual      two loads of one snapshot are equal
      ResaveFixpoint      the file written from a loaded reactor shows the same layout/* and loads to the same state
+                         -- also when it is written by a fresh process (FreshResaveKeepsParameters)
      FilesDescribeSnaps  a snapshot is exactly Flatten of the state at write time
      SnapshotsFrozen     later mutations / loads do not change what a snapshot loads to
      RefusalsChangeNothing                                                                                              *)
@@ -35,8 +44,9 @@ EXTENDS Layout
 CONSTANTS Slots, Handles, MaxLevel, MaxNodes,
           MutNodes      \* nodes whose parameters / composition / temperature the model mutates
 
-VARIABLES live, files, snap, loaded, src, act
-vars == <<live, files, snap, loaded, src, act>>
+VARIABLES live, files, snap, loaded, src, flags, act
+vars == <<live, files, snap, loaded, src, flags, act>>
+Procs == {1, 2}
 
 NoFile  == [none |-> TRUE]
 NoState == <<>>
@@ -62,11 +72,12 @@ Reactor0 == <<
 
 Init == /\ live = Reactor0
         /\ files = [s \in Slots |-> NoFile] /\ snap = [s \in Slots |-> NoState]
-        /\ loaded = [h \in Handles |-> NoState] /\ src = [h \in Handles |-> 0]
+        /\ loaded = [h \in Handles |-> NoState] /\ src = [h \in Handles |-> <<0, 0>>]
+        /\ flags = [p \in Procs |-> IF p = 1 THEN ParamGroups ELSE {}]
         /\ act = [n |-> "Init"]
 
 (* ------------------------------------------------ mutations ---------------------------------------------- *)
-Frame == UNCHANGED <<files, snap, loaded, src>>
+Frame == UNCHANGED <<files, snap, loaded, src, flags>>
 AssignParam(n, v) == /\ live[n].pp # v /\ live' = [live EXCEPT ![n].pp = v]
                      /\ act' = [n |-> "AssignParam", o |-> n, v |-> v] /\ Frame
 SetComposition(n, v) == /\ live[n].cmp /\ live[n].pn # v
@@ -100,16 +111,19 @@ Detach(n) == /\ n <= Len(live) /\ live[n].ty = "HexAssembly" /\ live[n].lk = "I"
 
 (* ------------------------------------------------ database ----------------------------------------------- *)
 Write(s) == /\ files[s] = NoFile /\ Sortable(live) = TRUE       \* (= TRUE: TLC must not branch on the disjunctions inside)
-            /\ files' = [files EXCEPT ![s] = Flatten(live)] /\ snap' = [snap EXCEPT ![s] = live]
-            /\ act' = [n |-> "Write", s |-> s] /\ UNCHANGED <<live, loaded, src>>
+            /\ files' = [files EXCEPT ![s] = Mask(Flatten(live), flags[1])] /\ snap' = [snap EXCEPT ![s] = live]
+            /\ act' = [n |-> "Write", s |-> s] /\ UNCHANGED <<live, loaded, src, flags>>
 WriteRefused(s) == /\ files[s] = NoFile /\ ~Sortable(live)
-                   /\ act' = [n |-> "WriteRefused", s |-> s] /\ UNCHANGED <<live, files, snap, loaded, src>>
-Load(s, h) == /\ files[s] # NoFile /\ loaded[h] = NoState
-              /\ loaded' = [loaded EXCEPT ![h] = LoadFile(files[s])] /\ src' = [src EXCEPT ![h] = s]
-              /\ act' = [n |-> "Load", s |-> s, h |-> h] /\ UNCHANGED <<live, files, snap>>
+                   /\ act' = [n |-> "WriteRefused", s |-> s] /\ UNCHANGED <<live, files, snap, loaded, src, flags>>
+Load(s, h, p) == /\ files[s] # NoFile /\ loaded[h] = NoState
+                 /\ loaded' = [loaded EXCEPT ![h] = LoadFile(files[s])] /\ src' = [src EXCEPT ![h] = <<s, p>>]
+                 /\ flags' = [flags EXCEPT ![p] = @ \cup ParamGroups]          \* _readParams: c.p[name] = value
+                 /\ act' = [n |-> "Load", s |-> s, h |-> h, p |-> p] /\ UNCHANGED <<live, files, snap>>
 Resave(h, s) == /\ loaded[h] # NoState /\ files[s] = NoFile
-                /\ files' = [files EXCEPT ![s] = Flatten(loaded[h])] /\ snap' = [snap EXCEPT ![s] = loaded[h]]
-                /\ act' = [n |-> "Resave", h |-> h, s |-> s] /\ UNCHANGED <<live, loaded, src>>
+                /\ LET p == src[h][2] IN
+                   files' = [files EXCEPT ![s] = Mask(Flatten(loaded[h]), flags[p])]
+                /\ snap' = [snap EXCEPT ![s] = loaded[h]]
+                /\ act' = [n |-> "Resave", h |-> h, s |-> s] /\ UNCHANGED <<live, loaded, src, flags>>
 
 PVals == {"p", "q"}
 Temps == {"400.5", "500.0"}
@@ -122,25 +136,28 @@ Next == \/ \E n \in MutNodes, v \in PVals : AssignParam(n, v)
         \/ Grow
         \/ \E s \in Slots : Write(s)
         \/ \E s \in Slots : WriteRefused(s)
-        \/ \E s \in Slots, h \in Handles : Load(s, h)
+        \/ \E s \in Slots, h \in Handles, p \in Procs : Load(s, h, p)
         \/ \E s \in Slots, h \in Handles : Resave(h, s)
 Spec == Init /\ [][Next]_vars
 
 (* ------------------------------------------------ properties --------------------------------------------- *)
 TypeOK == /\ WellFormed(live)
           /\ \A s \in Slots : files[s] = NoFile \/ Consistent(files[s])
-          /\ \A h \in Handles : (loaded[h] = NoState) = (src[h] = 0)
-LoadedIsWritten    == \A h \in Handles : src[h] # 0 => loaded[h] = Canon(snap[src[h]])
-LoadedClauseWise   == \A h \in Handles : src[h] # 0 => ObsEqual(Canon(snap[src[h]]), loaded[h])
-LoadTwiceEqual     == \A h1, h2 \in Handles : (src[h1] # 0 /\ src[h1] = src[h2]) => loaded[h1] = loaded[h2]
+          /\ \A h \in Handles : (loaded[h] = NoState) = (src[h] = <<0, 0>>)
+LoadedIsWritten    == \A h \in Handles : src[h][1] # 0 => loaded[h] = Canon(snap[src[h][1]])
+LoadedClauseWise   == \A h \in Handles : src[h][1] # 0 => ObsEqual(Canon(snap[src[h][1]]), loaded[h])
+\* ... whichever process loads it
+LoadTwiceEqual     == \A h1, h2 \in Handles : (src[h1][1] # 0 /\ src[h1][1] = src[h2][1]) => loaded[h1] = loaded[h2]
 FilesDescribeSnaps == \A s \in Slots : files[s] # NoFile => files[s] = Flatten(snap[s])
 ResaveFixpoint     == \A s \in Slots : files[s] # NoFile =>
                          LET l == LoadFile(files[s]) IN /\ FileObs(Flatten(l)) = FileObs(files[s])
                                                     /\ LoadFile(Flatten(l)) = l
 \* a loaded reactor is in canonical order and is a fixpoint of Canon
-LoadedIsCanonical  == \A h \in Handles : src[h] # 0 => Canon(loaded[h]) = loaded[h]
+LoadedIsCanonical  == \A h \in Handles : src[h][1] # 0 => Canon(loaded[h]) = loaded[h]
+\* a process that has loaded a reactor offers every parameter group to the writer again
+FreshResaveKeepsParameters == \A h \in Handles : src[h][1] # 0 => flags[src[h][2]] = ParamGroups
 Mutations == {"AssignParam", "SetComposition", "SetTemperature", "Swap", "Rotate", "Grow", "Detach"}
 SnapshotsFrozen == [][act'.n \in Mutations => (files' = files /\ loaded' = loaded)]_vars
-RefusalsChangeNothing == [][act'.n = "WriteRefused" => UNCHANGED <<live, files, snap, loaded, src>>]_vars
+RefusalsChangeNothing == [][act'.n = "WriteRefused" => UNCHANGED <<live, files, snap, loaded, src, flags>>]_vars
 WritesAreAppendOnly   == [][\A s \in Slots : files[s] # NoFile => files'[s] = files[s]]_vars
 =====================================================================================================
